@@ -309,15 +309,45 @@ FEXJAC_TEMPLATES = ["src/naunet_fex.cpp.j2", "src/naunet_jac.cpp.j2", "src/naune
                     "include/naunet_utilities.h.j2"]
 
 
+def _render_with_constants(net_builder, solver, method, device, templates):
+    """render the given templates plus the constants source (physical constants such as kerg are defined there); that file needs
+    a binding energy for every ice species of the network: when it cannot be rendered the constants stay unresolved symbols
+    (the temperature row is then not comparable, the species rows do not use them)"""
+    try:
+        d = render(net_builder(), solver, method, device, templates=templates + ["src/naunet_constants.cpp.j2"])
+        f = d / "src" / ("naunet_constants.cu" if (d / "src" / "naunet_constants.cu").exists() else "naunet_constants.cpp")
+        return d, [str(f)]
+    except Exception:
+        return render(net_builder(), solver, method, device, templates=templates), []
+
+
 def prep_fexjac(desc, method):
     """render `desc` for cvode/<method> (dense or sparse); returns (compile command, executable path) of the Fex / Jac driver in
     which the rate routines are stubs that return the coefficients of each case"""
-    net = build_network(desc)
-    d = render(net, "cvode", method, "cpu", templates=FEXJAC_TEMPLATES)
+    d, consts = _render_with_constants(lambda: build_network(desc), "cvode", method, "cpu", FEXJAC_TEMPLATES)
     exe = d / "fexjac"
     cmd = ["g++", "-std=c++17", "-O0", "-w", "-Wl,--unresolved-symbols=ignore-all", f"-DFEXJAC_SPARSE={1 if method == 'sparse' else 0}",
            "-I", str(CXX_DIR / "sundials"), "-I", str(d / "include"), "-o", str(exe),
-           str(d / "src" / "naunet_fex.cpp"), str(d / "src" / "naunet_jac.cpp"), str(d / "src" / "naunet_physics.cpp"), str(CXX_DIR / "fexjac_cvode.cpp")]
+           str(d / "src" / "naunet_fex.cpp"), str(d / "src" / "naunet_jac.cpp"), str(d / "src" / "naunet_physics.cpp"), *consts, str(CXX_DIR / "fexjac_cvode.cpp")]
+    return cmd, exe
+
+
+def prep_cusparse(desc):
+    """render `desc` for cvode/cusparse (gpu); the kernel launches `Kernel<<<...>>>(args)` are rewritten to plain calls in copies of
+    the two rendered files (nothing else is touched) and compiled by g++ against the CUDA stand-in header; returns (compile
+    command, executable path) of the driver that runs a batch of two systems"""
+    d, consts = _render_with_constants(lambda: build_network(desc), "cvode", "cusparse", "gpu", FEXJAC_TEMPLATES)
+    srcs = list(consts)
+    for f in ("naunet_fex", "naunet_jac"):
+        text = (d / "src" / f"{f}.cu").read_text()
+        text = re.sub(r"(\b\w+)\s*<<<[^;]*?>>>\s*\(", r"\1(", text)
+        (d / "src" / f"{f}_host.cpp").write_text(text)
+        srcs.append(str(d / "src" / f"{f}_host.cpp"))
+    phys = d / "src" / ("naunet_physics.cu" if (d / "src" / "naunet_physics.cu").exists() else "naunet_physics.cpp")
+    exe = d / "fexjac"
+    cmd = ["g++", "-std=c++17", "-O0", "-w", "-x", "c++", "-DUSE_CUDA", "-D__global__=", "-D__device__=", "-D__host__=", "-D__constant__=", "-include", str(CXX_DIR / "cuda" / "cuda_shim.h"), "-Wl,--unresolved-symbols=ignore-all",
+           "-I", str(CXX_DIR / "cuda"), "-I", str(CXX_DIR / "sundials"), "-I", str(d / "include"), "-o", str(exe),
+           *srcs, str(phys), str(CXX_DIR / "fexjac_cusparse.cpp")]
     return cmd, exe
 
 
@@ -347,7 +377,7 @@ def compile_all(cmds):
         return list(ex.map(one, cmds))
 
 
-def run_fexjac(exe, rows):
+def run_fexjac(exe, rows, per_case=1):
     """run a Fex / Jac driver on the input rows (lists of numbers); returns ([{"F", "J", "S", "J_ok"}], None) or (None, diagnostic)"""
     import subprocess
     inp = "\n".join(" ".join(repr(float(x)) for x in row) for row in rows) + "\n"
@@ -368,7 +398,7 @@ def run_fexjac(exe, rows):
             v = [float(x) for x in t[1:]]
             cur["J"] = [v[i * n:(i + 1) * n] for i in range(n)]
             cur["J_ok"] = t[0] == "J"
-    if r.returncode != 0 or len(out) != len(rows) or any(c["J"] is None for c in out):
+    if r.returncode != 0 or len(out) != per_case * len(rows) or any(c["J"] is None for c in out):
         return None, f"driver exit {r.returncode}, {len(out)} results for {len(rows)} cases: {r.stdout[-300:]}"
     return out, None
 
